@@ -34,6 +34,7 @@ from elementpath.sequence_types import is_instance
 from elementpath.xpath_context import XPathSchemaContext
 from elementpath.xpath_tokens import XPathToken, XPathFunction, XPathConstructor
 
+from elementpath.xpath1._xpath1_operators import COMPARISON_SYMBOLS
 from .xpath2_parser import XPath2Parser
 
 __all__ = ['XPath2Parser']
@@ -512,7 +513,7 @@ def select__parenthesized_expression(self: XPathToken, context: ta.ContextType =
 @method('le', bp=30)
 @method('ge', bp=30)
 def led__value_comparison_operators(self: XPathToken, left: XPathToken) -> XPathToken:
-    if left.symbol in COMPARISON_OPERATORS:
+    if left.symbol in COMPARISON_SYMBOLS:
         raise self.wrong_syntax()
     self[:] = left, self.parser.expression(rbp=30)
     return self
@@ -567,16 +568,18 @@ def evaluate__value_comparison_operators(self: XPathToken, context: ta.ContextTy
 ###
 # Node comparison
 @method('is', bp=30)
+@method(infix('<<', bp=30), bp=30)
+@method(infix('>>', bp=30), bp=30)
 def led__node_comparison(self: XPathToken, left: XPathToken) -> XPathToken:
-    if left.symbol == 'is':
+    if left.symbol in COMPARISON_SYMBOLS:
         raise self.wrong_syntax()
     self[:] = left, self.parser.expression(rbp=30)
     return self
 
 
 @method('is')
-@method(infix('<<', bp=30))
-@method(infix('>>', bp=30))
+@method('<<')
+@method('>>')
 def evaluate__node_comparison(self: XPathToken, context: ta.ContextType = None) \
         -> ta.OneOrEmpty[bool]:
     symbol = self.symbol
